@@ -231,6 +231,32 @@ fn enumerate(args: &Args) -> Vec<VCase> {
                     v.push(VCase::Quad { ty: ty.into(), gen: g.clone(), path: p, dense: 8193 });
                 }
             }
+            // exhaustive at block granularity (blocks of 256 and of 512 symbols, constant fills): every sequence of up to 6
+            // (thorough 8) blocks over the four symbols, with and without a partial block at the end, and every sequence of 7..=11
+            // (thorough ..=17) blocks over two symbols - crosses the 8-block superblock, counters of 2048 and more inside one
+            // superblock; for the 512 variant also the one-hot and prefix fillings of 17 blocks (two superblocks)
+            for b in [256usize, 512] {
+                for extra in [0usize, 1] {
+                    for g in coarse_all(4, if th { 8 } else { 6 }, b, extra) {
+                        for ty in tys {
+                            v.push(VCase::Quad { ty: ty.into(), gen: g.clone(), path: (v.len() % 3) as u8, dense: 3 });
+                        }
+                    }
+                }
+                for g in coarse_all(2, if th { 17 } else { 11 }, b, 0) {
+                    if matches!(g, Gen::CoarseTiny { len, .. } if len < 7) {
+                        continue;
+                    }
+                    for ty in tys {
+                        v.push(VCase::Quad { ty: ty.into(), gen: g.clone(), path: (v.len() % 3) as u8, dense: 3 });
+                    }
+                }
+            }
+            for j in 0..17u32 {
+                for idx in [1u64 << j, (1u64 << (j + 1)) - 1, !((1u64 << j) - 1) & 0x1ffff] {
+                    v.push(VCase::Quad { ty: "RSQVector512".into(), gen: Gen::CoarseTiny { k: 2, len: 17, idx, b: 512, extra: 0 }, path: (v.len() % 3) as u8, dense: 3 });
+                }
+            }
             let mut lens = boundary_lengths(th);
             lens.extend([1536, 1537, 1791, 1792, 1793, 3072, 3073, 3583, 3584, 3585, 6143, 6144, 6145, 12287, 12288, 12289, 24577]);
             if th {
@@ -275,6 +301,17 @@ fn enumerate(args: &Args) -> Vec<VCase> {
                 for pat in bit_patterns() {
                     for ty in tys {
                         v.push(VCase::Bin { ty: ty.into(), gen: BitGen::Pat { n, pat }, path: (v.len() % 5) as u8, dense: if th { 8193 } else { 2049 } });
+                    }
+                }
+            }
+            // exhaustive at word / line granularity: every sequence of up to 8 (thorough 9) words and of up to 8 (9) lines of 512
+            // bits over the fills {zeros, ones, first bit only, last bit only}, with 0 / 1 trailing bits
+            for (unit, maxlen) in [(64usize, if th { 9 } else { 8 }), (512, if th { 8 } else { 6 })] {
+                for extra in [0usize, 1] {
+                    for g in coarse_bits_all(unit, if extra == 1 { maxlen - 2 } else { maxlen }, extra) {
+                        for ty in tys {
+                            v.push(VCase::Bin { ty: ty.into(), gen: g.clone(), path: (v.len() % 5) as u8, dense: if unit == 64 { 600 } else { 3 } });
+                        }
                     }
                 }
             }
